@@ -206,6 +206,17 @@ func VerifHarness_C07_O1() {
 	} else {
 		after := d.digest()
 		verifAssert("rejected-state-unchanged", verifDigestEq(before, after))
+		// the refused event itself left no trace in the store
+		isStored := false
+		for _, e := range d.all {
+			if e.Hex() == ev.Hex() {
+				isStored = true
+			}
+		}
+		if !isStored {
+			_, gerr := vn.h.Store.GetEvent(ev.Hex())
+			verifAssert("rejected-event-not-in-store", gerr != nil)
+		}
 	}
 	verifReach("end")
 }
@@ -317,6 +328,89 @@ func VerifHarness_C07_O3() {
 		for i, bs := range ev.Body.BlockSignatures {
 			verifAssert(fmt.Sprintf("block-signature-%d-attributed-to-creator", i), string(bs.Validator) == string(ev.Body.Creator) && bs.Index == we.Body.BlockSignatures[i].Index)
 		}
+	}
+	verifReach("end")
+}
+
+
+// C07/O4 — every field is covered by a signature: a valid, correctly signed
+// next event of A (carrying a join request signed by the joining peer and a
+// block signature) is accepted; the same event with ANY single field altered
+// after signing (new values symbolic where the field is numeric) is refused
+// and leaves the DAG unchanged.
+func VerifHarness_C07_O4() {
+	d := verifBuildDAG(1, 1)
+	vn := d.vn
+	joiner := verifKey(4)
+	itx := NewInternalTransaction(PEER_ADD, *peers.NewPeer(publicKeyHex(joiner), "addr", "joiner"))
+	ih, _ := itx.Body.Hash()
+	itx.Signature = verifSignature(joiner, ih, true)
+	bsig := BlockSignature{Validator: vn.pubs[0], Index: 3, Signature: "r|s"}
+	ev := NewEvent([][]byte{[]byte("ab"), []byte("c")}, []InternalTransaction{itx}, []BlockSignature{bsig},
+		[]string{d.chains[0][0].Hex(), d.chains[1][0].Hex()}, vn.pubs[0], 1)
+	ev.Body.Timestamp = 4242
+	bh, _ := ev.Body.Hash()
+	ev.Signature = verifSignature(vn.keys[0], bh, true)
+	// fresh object so that no cached hash survives the tampering
+	cand := &Event{Body: ev.Body, Signature: ev.Signature}
+	cand.Body.Transactions = [][]byte{[]byte("ab"), []byte("c")}
+	cand.Body.InternalTransactions = []InternalTransaction{itx}
+	cand.Body.BlockSignatures = []BlockSignature{bsig}
+	cand.Body.Parents = []string{ev.Body.Parents[0], ev.Body.Parents[1]}
+	t := verifChoice("tamper", 16)
+	switch t {
+	case 0:
+	case 1:
+		b := verifNondetByte("newTxByte")
+		verifAssume(b != 'a')
+		cand.Body.Transactions[0] = []byte{b, 'b'}
+	case 2:
+		cand.Body.Transactions = append(cand.Body.Transactions, []byte("x"))
+	case 3:
+		cand.Body.Transactions = [][]byte{[]byte("c"), []byte("ab")}
+	case 4:
+		ts := verifNondetInt64("newTimestamp")
+		verifAssume(ts != 4242)
+		cand.Body.Timestamp = ts
+	case 5:
+		cand.Body.Parents[1] = ""
+	case 6:
+		cand.Body.Transactions = nil
+	case 7:
+		cand.Body.InternalTransactions[0].Body.Type = PEER_REMOVE
+	case 8:
+		cand.Body.InternalTransactions[0].Body.Peer.NetAddr = "other"
+	case 9:
+		cand.Body.InternalTransactions[0].Body.Peer.Moniker = "other"
+	case 10:
+		cand.Body.InternalTransactions = nil
+	case 11:
+		i := verifNondetInt("newBlockSigIndex")
+		verifAssume(i != 3)
+		cand.Body.BlockSignatures[0].Index = i
+	case 12:
+		cand.Body.BlockSignatures[0].Signature = "r|t"
+	case 13:
+		cand.Body.BlockSignatures = nil
+	case 14:
+		// the join request re-targeted to another peer's key, signature kept
+		cand.Body.InternalTransactions[0].Body.Peer.PubKeyHex = publicKeyHex(verifKey(5))
+	case 15:
+		cand.Body.BlockSignatures[0].Validator = vn.pubs[1]
+	}
+	// a Byzantine creator may re-sign the altered event with its own key: the
+	// membership request inside must then still fail its own signature check
+	if (t == 7 || t == 8 || t == 9 || t == 14) && verifChoice("creatorReSigns", 2) == 1 {
+		nh, _ := cand.Body.Hash()
+		cand.Signature = verifSignature(vn.keys[0], nh, true)
+	}
+	before := d.digest()
+	err := vn.h.InsertEvent(cand, true)
+	if t == 0 {
+		verifAssert("untampered-event-accepted", err == nil)
+	} else {
+		verifAssert("tampered-after-signing-refused", err != nil)
+		verifAssert("tampered-refusal-leaves-dag-unchanged", verifDigestEq(before, d.digest()))
 	}
 	verifReach("end")
 }
